@@ -61,6 +61,7 @@ def check(ctx: Ctx) -> str:
     r6_conversions(ctx)
     r8_recursion(ctx)
     r10_uniqueness(ctx)
+    r13_emitted_literals(ctx)
     from ..emitrules import c01_skeleton_rules
 
     c01_skeleton_rules(ctx)
@@ -70,7 +71,7 @@ def check(ctx: Ctx) -> str:
     from .c08 import r3_safe_repr
 
     r3_safe_repr(ctx, "R11")
-    r0_fold_failures(ctx, "R12")
+    r0_fold_failures(ctx, "R12", size_rule=True)
     # R5 accepts the AssertionError of Symbols.ref and the NotImplementedError of
     # enter_frame / RootVisitor.generic_visit as unreachable *because* the symbol analysis
     # covers exactly what the compiler visits: re-check those rules here
@@ -554,3 +555,59 @@ def r10_uniqueness(ctx: Ctx) -> None:
     ctx.check(ok, "signature:extra_kwargs", "compiler:CodeGenerator.signature", "reserved keyword collision accepted",
               "signature() writes the template's keyword arguments and the compiler's extra_kwargs into one call without rejecting a name used by both: `{% call m(caller=1) %}` yields builtins.SyntaxError (keyword argument repeated)",
               sig.loc(), detail={"obligation": "template kwargs and extra_kwargs are disjoint"})
+    # names Python refuses as keyword-argument names are passed through the **{...} form
+    wk = [a for a in ast.walk(sig.node) if isinstance(a, ast.Assign) and isinstance(a.value, ast.Call) and astq.callee(a.value) == "any" and a.value.args and isinstance(a.value.args[0], ast.GeneratorExp)]
+    pred = ""
+    for a in wk:
+        elt = a.value.args[0].elt  # type: ignore[attr-defined]
+        pred = ast.unparse(elt)
+        # a helper predicate defined in the module is read through
+        if isinstance(elt, ast.Call) and isinstance(elt.func, ast.Name) and elt.func.id in repo.module("compiler").defs:
+            pred += " " + ast.unparse(repo.module("compiler").defs[elt.func.id])
+    ctx.check(bool(wk) and ("is_python_keyword" in pred or "iskeyword" in pred) and "__debug__" in pred, "signature:forbidden-names", "compiler:CodeGenerator.signature", "keyword names Python refuses are emitted literally",
+              f"signature() decides with `{pred[:80]}` whether keyword arguments need the **{{...}} form; it must cover the reserved words and `__debug__` (`f(__debug__=1)` is a SyntaxError: cannot assign to __debug__)",
+              sig.loc(), detail={"predicate": pred[:120]})
+    # CPython compares identifiers after NFKC normalisation, the duplicate checks compare the raw text
+    def _nfkc(fn_node: ast.AST) -> bool:
+        return any(astq.callee(c).split(".")[-1] == "normalize" and c.args and isinstance(c.args[0], ast.Constant) and c.args[0].value in ("NFKC", "NFKD") for c in astq.calls(fn_node))
+
+    lexer_norm = _nfkc(repo.func("lexer:Lexer.wrap").node) or _nfkc(repo.func("lexer:Lexer.tokeniter").node)
+    for meth in ("parse_signature", "parse_call_args"):
+        fi = repo.func(f"parser:Parser.{meth}")
+        norm_here = _nfkc(fi.node)
+        ctx.check(lexer_norm or norm_here, f"{meth}:nfkc", f"parser:Parser.{meth}", "duplicates compared without NFKC normalisation",
+                  f"{meth} compares the raw names; CPython normalises identifiers (NFKC) before comparing them, so `m(ﬁ, fi)` / `f(ﬁ=1, fi=2)` pass the duplicate check and the generated module is rejected with builtins.SyntaxError", fi.loc())
+
+
+# ------------------------------------------------------------------------ R13
+def r13_emitted_literals(ctx: Ctx) -> None:
+    ctx.rule("R13", "text interpolated *inside* a string literal of the generated code is identifier-valued (a node's .name, or a loop variable over such names / constants); any other text is emitted as a whole literal with !r")
+    repo = ctx.repo
+    n_sites = 0
+    for mod in ("compiler", "nativetypes"):
+        m = repo.module(mod)
+        for c in astq.calls(m.tree):
+            if astq.callee(c).split(".")[-1] not in ("write", "writeline") or not c.args or not isinstance(c.args[0], ast.JoinedStr):
+                continue
+            fn = c
+            while fn is not None and not isinstance(fn, (ast.FunctionDef, ast.AsyncFunctionDef)):
+                fn = getattr(fn, "_parent", None)
+            loopvars = {x.id for l_ in ast.walk(fn) if isinstance(l_, (ast.For, ast.comprehension)) for x in ast.walk(l_.target) if isinstance(x, ast.Name)} if fn is not None else set()
+            quote = None
+            for v in c.args[0].values:
+                if isinstance(v, ast.Constant) and isinstance(v.value, str):
+                    for ch in v.value:
+                        if quote is None and ch in "'\"":
+                            quote = ch
+                        elif quote == ch:
+                            quote = None
+                elif isinstance(v, ast.FormattedValue) and quote is not None:
+                    n_sites += 1
+                    e = v.value
+                    base = e.value if isinstance(e, ast.Subscript) else e
+                    ident = (isinstance(base, ast.Attribute) and base.attr == "name" and isinstance(base.value, ast.Name) and base.value.id != "self") or (isinstance(base, ast.Name) and base.id in loopvars)
+                    q = astq.enclosing_qual(c)
+                    ctx.check(ident, f"{mod}:{q}:{ast.unparse(e)}", f"{mod}:{q}", f"`{ast.unparse(e)}` interpolated inside an emitted {quote}-quoted literal",
+                              f"{q} writes `{ast.unparse(e)}` inside a {quote}...{quote} literal of the generated module; unless that text is an identifier, a quote or backslash in it (a template name such as a\"b, a file name, user text) ends the literal early and compile() raises builtins.SyntaxError - emit the whole message with !r instead",
+                              f"{m.rel}:{c.lineno}", detail={"site": f"{mod}:{q}", "value": ast.unparse(e)})
+    ctx.floor("interpolations inside emitted literals", n_sites, 3)
